@@ -1,5 +1,5 @@
 # C14 - template substitution replaces exactly the placeholders and nothing else (Tier A: in-process).
-# Bounded exhaustive: every template made of <= 3 (quick) / <= 4 (thorough) fragments of a 36-fragment alphabet
+# Bounded exhaustive: every template made of <= 3 (quick) / <= 4 (thorough) fragments of a 32-fragment alphabet
 # (de-duplicated on the resulting text) x 100 data sets (A, B each bound to one of 10 values) x formats
 # {meson, cmake, cmake@}, the real do_conf_str executed on every element.  Four oracles:
 #  (1) marker differential (meson format): the output for real values must equal the output obtained with inert
@@ -20,9 +20,11 @@
 # Nesting is not described in Meson's own documentation; it is the documented behaviour of the format's home (cmake-language(7):
 # "Variable references can nest and are evaluated from the inside out", configure_file(): @VAR@ and ${VAR} are both references),
 # the reference implements that rule and - where a cmake(1) is installed - is compared with it line by line.
-# Family "directive spelling" (cmake formats, part of the main alphabet): '# cmakedefine A', '#<tab>cmakedefine01 A', ' #cmakedefine A',
-# ' # cmakedefine A B' and what ' ' makes of the compact directives.  Which white space the output keeps is not specified (CMake keeps it
-# in '#  define VAR' and drops it in '/* #undef VAR */'), so these lines are compared as (define | undef, NAME, VALUE) + line ending.
+# Family "directive spelling" (cmake formats): every sequence of <= 3 (quick) / <= 4 (thorough) fragments of a 17-fragment alphabet of
+# directives ('#cmakedefine A', '# cmakedefine A', '#<tab>cmakedefine01 A', ' #cmakedefine A', ' # cmakedefine A B', '#cmakedefine01 A'),
+# blanks and tabs, value words (' @B@', ' ${B}', ' @U@', ' B', ' x'), line endings and filler x the 100 data sets x {cmake, cmake@}.
+# Which white space the output keeps is not specified (CMake keeps it in '#  define VAR' and drops it in '/* #undef VAR */'), so lines
+# whose directive is not in the documented spelling are compared as (define | undef, NAME, VALUE) + line ending.
 import io, itertools, json, os, re, shutil, signal, string, sys, time
 from verif.core import Check, pmap, run_main, scratch_root
 
@@ -43,12 +45,7 @@ FRAGS = ['@A@', '@B@', '@U@', '@', '@@', '\\@', '\\\\', '\\\\\\', '\\@A\\@', '\\
          '#cmakedefine A ${B}',
          # characters str.splitlines() would break a line at, but which are not line endings of a text file: plain text everywhere,
          # also on the line of a define directive
-         '\x0c', '\u2028',
-         # family "directive spelling" (cmake formats): white space between '#' and the keyword and before '#' (indented preprocessor
-         # style).  CMake's configure_file() takes '#' + blanks/tabs + 'cmakedefine[01]' for the directive and keeps the white space;
-         # what Meson keeps of it is not documented, the NAME that is defined / undefined and the VALUE are (see define_triple)
-         '# cmakedefine A', '#\tcmakedefine01 A', ' #cmakedefine A', ' # cmakedefine A B']
-N_SPELLING_FRAGS = 4
+         '\x0c', '\u2028']
 VALUES = ['v', '', '@B@', '\\\\@B@', '${B}', 'x y', 10, 0, True, False]
 DATASETS = [(a, b) for a in VALUES for b in VALUES]
 FORMATS = ['meson', 'cmake', 'cmake@']
@@ -975,6 +972,67 @@ def names_family(ck, maxlen):
     return tot, unspec, classes
 
 
+# ---- family "directive spelling": #cmakedefine lines whose white space is not the documented one ----------------------------------
+# (cmake formats)  CMake's configure_file() takes '#', blanks or tabs, 'cmakedefine' / 'cmakedefine01', blanks or tabs, NAME for the
+# directive wherever it stands after the indentation, and Meson announces "whitespace between `#` and `cmakedefine`" as a feature
+# (1.9.0).  What is kept of the white space is unspecified; the variable that is defined / undefined and its value are not.
+SFRAGS = ['#cmakedefine A', '# cmakedefine A', '#\tcmakedefine01 A', ' #cmakedefine A', ' # cmakedefine A B', '#cmakedefine01 A',
+          ' ', '\t', ' @B@', ' ${B}', ' @U@', ' B', ' x', '\n', '\r\n', 'x', '\x0c']
+S_FORMATS = ['cmake', 'cmake@']
+S_TEMPLATES = []
+
+
+def spelling_shard(rng):
+    lo, hi = rng
+    acc = Acc()
+    NSTAT.clear()
+    for text, tup in S_TEMPLATES[lo:hi]:
+        check_template(acc, text, [SFRAGS[i] for i in tup], S_FORMATS, DATASETS)
+    nstat_flush(acc)
+    return acc.dump()
+
+
+def spelling_family(ck, maxlen):
+    global S_TEMPLATES
+    seen_t, nseq = set(), 0
+    S_TEMPLATES = []
+    for n in range(1, maxlen + 1):
+        for tup in itertools.product(range(len(SFRAGS)), repeat=n):
+            nseq += 1
+            text = ''.join(SFRAGS[i] for i in tup)
+            if text not in seen_t:
+                seen_t.add(text)
+                S_TEMPLATES.append((text, tup))
+    nt = len(S_TEMPLATES)
+    step = max(8, nt // 240)
+    ranges = [(lo, min(nt, lo + step)) for lo in range(0, nt, step)]
+    tot, unspec, vcount, classes, seen = {}, {}, {}, set(), set()
+    for res in pmap(spelling_shard, ranges):
+        for k, v in res['n'].items():
+            tot[k] = tot.get(k, 0) + v
+        for k, v in res['unspec'].items():
+            unspec[k] = unspec.get(k, 0) + v
+        for k, v in res['vcount'].items():
+            vcount[k] = vcount.get(k, 0) + v
+        classes.update(res['classes'])
+        for key, what, rep in res['viol']:
+            seen.add(key)
+            ck.violation(key, what, rep)
+    ck.part('directive_spelling_family', fragments=SFRAGS, fragment_sequences=nseq, distinct_texts=nt, max_fragments=maxlen, formats=S_FORMATS,
+            data_sets=len(DATASETS), shards=len(ranges),
+            compared='(define | undef, NAME, VALUE) of the output line + its line ending where the directive is not in the documented spelling',
+            finding_class_case_counts=vcount, skipped_unspecified_by_reason=unspec, **tot)
+    ck.require(tot.get('o2_define_lines_compared_as_triple', 0) > 10000, 'directive spelling family: hardly any line compared as a triple')
+    ck.require(all(tot.get('o2_triple_' + t, 0) > 1000 for t in ('define-hash-gap', 'define-hash-gap+01', 'define-indented', 'define-blanks')),
+               'directive spelling family: "# cmakedefine", "# cmakedefine01", indented or blank-padded directives not exercised')
+    ck.require(any('define-hash-gap' in c and 'define-arg-words' in c and c.startswith('cmake|') for c in classes)
+               and any('define-hash-gap' in c and 'define-arg' in c and c.startswith('cmake@|') for c in classes)
+               and any('define-hash-gap' in c and 'crlf' in c for c in classes),
+               'directive spelling family: "# cmakedefine VAR words" / the cmake@ format / CRLF not exercised')
+    ck.require(tot.get('o3_missing_nonempty', 0) > 1000, 'directive spelling family: no undefined name in the value of a directive')
+    return tot, unspec, classes
+
+
 def cmake_calibration(ck):
     """The 'cmake' formats are CMake's configure_file() format: where a cmake(1) is installed, the reference (not Meson) must
        agree with it on every specified line of the names family for every all-string data set (CMake has no other types).
@@ -992,12 +1050,12 @@ def cmake_calibration(ck):
             # anywhere in a line.  The reference follows the documentation, so lines with the keyword further right are left out.)
             if b and b not in bodies and '\r' not in b and ('cmakedefine' not in b or b.startswith('#cmakedefine')):
                 bodies.append(b)
-    # family "directive spelling": every line of the main enumeration (<= 3 fragments) the reference takes for a directive in another than
-    # the documented spelling; CMake must define / undefine the same name with the same value (its white space is not compared either)
+    # family "directive spelling": every line of that family and of the main enumeration (<= 3 fragments) the reference takes for a directive
+    # in another than the documented spelling; CMake must define / undefine the same name with the same value (its white space is not compared either)
     seen = set(bodies)
-    for text, tup in TEMPLATES:
+    for text, tup in S_TEMPLATES + TEMPLATES:
         if len(tup) > 3:
-            break
+            continue
         if 'cmakedefine' not in text:
             continue
         for l in split_lines(text):
@@ -1159,8 +1217,11 @@ def tier_b(ck):
     datasets = [(a, b) for a in TB_VALUES for b in (TB_VALUES if ck.thorough else TB_VALUES[:4])]
     ok_cases, err_cases = [], []
     skipped = 0
-    for text in texts:
-        for fmt in FORMATS:
+    # the directive spelling family (cmake formats) end to end: with a real (sub)project the 'whitespace between # and cmakedefine' feature check runs
+    main_texts = set(texts)
+    stexts = [t for t, tup in S_TEMPLATES if len(tup) <= 2 and t not in main_texts]
+    for text in texts + stexts:
+        for fmt in (FORMATS if text in main_texts else S_FORMATS):
             for a, b in datasets:
                 if HANG_CLASS_LIVE and self_referential(text, fmt, a, b):
                     skipped += 1
@@ -1185,7 +1246,8 @@ def tier_b(ck):
         ne += 1
         for key, what, rep in viol:
             ck.violation(key, what, rep)
-    ck.part('tierB', configure_file_calls=n, setups=len(jobs), error_templates=ne, skipped=skipped, templates=len(texts), datasets=len(datasets))
+    ck.part('tierB', configure_file_calls=n, setups=len(jobs), error_templates=ne, skipped=skipped, templates=len(texts),
+            templates_of_directive_spelling_family=len(stexts), datasets=len(datasets))
     ck.require(n > 5000 and ne > 10, 'tier B compared too little')
     return n + ne
 
@@ -1488,7 +1550,7 @@ def main():
     if ck.args.replay:
         return replay(ck)
     maxlen = ck.q(3, 4)
-    ck.require(len(FRAGS) == 36 and len(set(FRAGS)) == 36, 'alphabet is not 36 distinct fragments')
+    ck.require(len(FRAGS) == 32 and len(set(FRAGS)) == 32, 'alphabet is not 32 distinct fragments')
     ck.require(not any('\r' in f.replace('\r\n', '') for f in FRAGS), 'lone CR in the alphabet')
     ncal = calibrate(ck)
     ck.part('calibration', pinned_expectations_reproduced_by_reference=ncal)
@@ -1505,6 +1567,9 @@ def main():
     ck.part('hang_probe', probes=4, hangs=pacc.hangs, class_skipped_in_enumeration=HANG_CLASS_LIVE)
     if ck.args.only == 'names':          # debugging: only the names family (no evidence is written with --only)
         ntot, nunspec, nclasses = names_family(ck, ck.q(2, 3))
+        stot, sunspec, sclasses = spelling_family(ck, ck.q(3, 4))
+        nclasses |= sclasses
+        ntot['evaluations'] += stot.get('evaluations', 0)
         cmake_calibration(ck)
         print(json.dumps(ck.parts, indent=1, sort_keys=True, default=repr))
         ck.finish(evaluations=ntot.get('evaluations', 0), distinct_nontrivial=len(nclasses), rule='names family only', exhaustive=True)
@@ -1532,17 +1597,6 @@ def main():
     ck.part('templates', fragment_sequences=nseq, distinct_texts=nt, max_fragments=maxlen, formats=FORMATS,
             data_sets=len(DATASETS), shards=len(ranges), **tot)
     ck.part('finding_class_case_counts', **vcount)
-    # family "directive spelling": #cmakedefine lines whose white space is not the documented one, compared as (kind, name, value)
-    ck.part('directive_spelling_family', fragments=FRAGS[-N_SPELLING_FRAGS:],
-            also_composed_from='" " before / after the compact directives of the alphabet',
-            compared='(define | undef, NAME, VALUE) of the output line + its line ending; the white space the output keeps is unspecified',
-            **{k: v for k, v in sorted(tot.items()) if k.startswith('o2_triple_') or k == 'o2_define_lines_compared_as_triple'})
-    ck.require(tot.get('o2_define_lines_compared_as_triple', 0) > 10000, 'directive spelling family: hardly any line compared as a triple')
-    ck.require(all(tot.get('o2_triple_' + t, 0) > 1000 for t in ('define-hash-gap', 'define-hash-gap+01', 'define-indented', 'define-blanks')),
-               'directive spelling family: "# cmakedefine", "# cmakedefine01", indented or blank-padded directives not exercised')
-    ck.require(any('define-hash-gap' in c and 'define-arg-words' in c and c.startswith(f + '|') for c in classes for f in ('cmake',))
-               and any('define-hash-gap' in c and c.startswith('cmake@|') for c in classes),
-               'directive spelling family: "# cmakedefine VAR words" / the cmake@ format not exercised')
     ck.part('skipped_unspecified_by_reason', **unspec)
     ck.cov['skipped_unspecified'] = sum(unspec.values())
     for u in sorted(UNSPEC):
@@ -1560,15 +1614,16 @@ def main():
                'escape / CRLF classes not exercised')
     t_enum = time.time()
     ntot, nunspec, nclasses = names_family(ck, ck.q(2, 3))
+    stot, sunspec, sclasses = spelling_family(ck, ck.q(3, 4))
     cmake_calibration(ck)
-    ck.cov['skipped_unspecified'] += sum(nunspec.values())
-    classes |= nclasses
+    ck.cov['skipped_unspecified'] += sum(nunspec.values()) + sum(sunspec.values())
+    classes |= nclasses | sclasses
     t_names = time.time()
     nfile = file_slice(ck, 2, ck.seed)
     t_file = time.time()
     nhead, hclasses = header_part(ck)
     ntb = tier_b(ck) if ck.want('tierb') else 0
-    print('phases: probes+build %.1fs enumeration %.1fs names family %.1fs file slice %.1fs header %.1fs' % (
+    print('phases: probes+build %.1fs enumeration %.1fs names+spelling families %.1fs file slice %.1fs header+tierB %.1fs' % (
         t_build - ck.t0, t_enum - t_build, t_names - t_enum, t_file - t_names, time.time() - t_file), flush=True)
     esc = next((t for t in TEMPLATES if '\\@A\\@' in t[0] and t[0].endswith('\r\n') and '@B@' in t[0]), TEMPLATES[0])
     ck.sample({'template': esc[0], 'fragments': [FRAGS[i] for i in esc[1]], 'format': 'meson', 'data': {'A': '@B@', 'B': 'x y'},
@@ -1577,16 +1632,17 @@ def main():
     ck.sample({'template': TEMPLATES[nt - 7][0], 'fragments': [FRAGS[i] for i in TEMPLATES[nt - 7][1]], 'formats': FORMATS})
     ck.sample({'template': '${A_@B@}x${${B}}\n', 'fragments': ['${A_@B@}', 'x', '${${B}}', '\n'], 'format': 'cmake', 'data': {'A': 'v', 'B': 'v', 'A_v': 7},
                'observed': repr(run_real(['${A_@B@}x${${B}}\n'], cd_for_data({'A': 'v', 'B': 'v', 'A_v': 7}), 'cmake')[1:])})
-    ck.finish(evaluations=tot.get('evaluations', 0) + ntot.get('evaluations', 0) + nfile + nhead + ntb,
+    ck.finish(evaluations=tot.get('evaluations', 0) + ntot.get('evaluations', 0) + stot.get('evaluations', 0) + nfile + nhead + ntb,
               distinct_nontrivial=len(classes) + hclasses,
-              rule='every sequence of <= %d fragments from the 36-fragment alphabet (%d sequences, %d distinct texts) x 100 data sets '
+              rule='every sequence of <= %d fragments from the 32-fragment alphabet (%d sequences, %d distinct texts) x 100 data sets '
                    '(A,B in %r) x formats %s through the real do_conf_str (+ marker-structure runs for the meson format); names family: every sequence of '
                    '<= %d fragments from a 20-fragment alphabet of references with computed names x %d data sets (A, B and at most one further key out of the '
-                   'names that can be composed) x formats; do_conf_file on all '
+                   'names that can be composed) x formats; directive spelling family: every sequence of <= %d fragments from a 17-fragment alphabet of '
+                   '#cmakedefine directives with white space before / after the # and around the name, value words and line endings x 100 data sets x {cmake, cmake@}; do_conf_file on all '
                    'texts <= 2 fragments; dump_conf_header on all ordered key tuples <= 2 x values x description and all permutations of '
                    '3..%d keys x {c,nasm,json} x macro guard; tier B: all texts <= 2 fragments x data x formats through configure_file() of a real meson setup. distinct_nontrivial = number of distinct (format, set of reference line '
                    'features: var/escape kinds/define kinds/error/CRLF/unspecified reason) classes among templates having at least one '
-                   'feature + distinct (header format, value-kind set) classes' % (maxlen, nseq, nt, VALUES, FORMATS, ck.q(2, 3), len(N_DATASETS), 6 if ck.thorough else 4),
+                   'feature + distinct (header format, value-kind set) classes' % (maxlen, nseq, nt, VALUES, FORMATS, ck.q(2, 3), len(N_DATASETS), ck.q(3, 4), 6 if ck.thorough else 4),
               exhaustive=tot.get('not_run_after_hangs', 0) == 0)
 
 
